@@ -686,6 +686,27 @@ def run_differential(ctx):
             plain = lint(cfg, "yaml", {"tool.py": PY})
             if [(r, m) for r, _f, m in script] != [(r, m) for r, _f, m in plain]:
                 bad.append(f"language: a python-shebang script gets {len(script)} violations, the identical .py file {len(plain)}, under {cfg}")
+            # reuse: ONE long-lived Orchestrator -- a second call gives the same result, and after the file was edited the
+            # same object gives what a fresh Orchestrator gives for the new content (nothing stale survives between calls)
+            runs += 1
+            with tempfile.TemporaryDirectory() as d:
+                root = Path(d)
+                (root / ".thailint.yaml").write_text(yaml.dump(cfg, sort_keys=False), encoding="utf-8")
+                (root / "a.py").write_text(PY, encoding="utf-8")
+                (root / "b.ts").write_text(TS, encoding="utf-8")
+                ign.clear_ignore_parser_cache()
+                orch = core.Orchestrator(project_root=root)
+                key = lambda vs: sorted((v.rule_id, Path(v.file_path).name, v.line, v.message) for v in vs  # noqa: E731
+                                        if v.rule_id.split(".")[0] in WATCHED)
+                first = key(orch.lint_file(root / "a.py") + orch.lint_file(root / "b.ts"))
+                second = key(orch.lint_file(root / "a.py") + orch.lint_file(root / "b.ts"))
+                if first != second:
+                    bad.append(f"reuse: the second call on the same Orchestrator differs from the first under {cfg}")
+                (root / "a.py").write_text("def small(x):\n    return x\n", encoding="utf-8")
+                edited = key(orch.lint_file(root / "a.py"))
+                fresh = key(core.Orchestrator(project_root=root).lint_file(root / "a.py"))
+                if edited != fresh:
+                    bad.append(f"reuse: after editing a.py the long-lived Orchestrator reports {len(edited)} violations, a fresh one {len(fresh)}")
             off = rng.choice(["nesting", "srp", "magic-numbers"])
             cfg2 = {k: dict(v) for k, v in cfg.items()}
             cfg2[off]["enabled"] = False
@@ -699,3 +720,109 @@ def run_differential(ctx):
              "tool": "native differential (Orchestrator runs)", "budget": f"{runs} runs, seed {seed}", "cases": runs,
              "note": "; ".join(bad)[:800], "solver": "native", "ms": round((time.time() - t0) * 1000, 1),
              "witness_confirmed": bool(bad), "witness": "; ".join(bad)[:800] or None}]
+
+
+# =================================================================== module-level mutable defaults never escape un-copied
+# A module-level mutable container (DEFAULT_CONFIG, CONFIG_LOCATIONS, DEFAULT_IGNORE_PATTERNS, ...) is process-wide
+# state. Reading it is fine; handing the OBJECT ITSELF to a caller is not: the caller's later stores (config set writes
+# into the loaded dict before validating) would rewrite the defaults for every later command of the process. Mechanical
+# rule over the configuration modules: every use of such a name must be non-escaping --
+#   X.copy() / X.get(..) / X.items() ... , X[...] (read), `k in X`, iteration, len/dict/list/set/tuple/sorted/deepcopy(X),
+#   X + y / X | y (new object), {**X} / [*X], a `.get(k, X)` default whose call is itself wrapped in a copying constructor;
+# `return X`, `y = X`, passing X to another function, storing X in a container or attribute are escapes.
+DEFAULTS_MODULES = ["src/config.py", "src/cli/config.py", "src/cli/config_merge.py"]
+SAFE_ATTRS = {"copy", "get", "items", "keys", "values", "index", "count", "union", "intersection", "difference", "issubset",
+              "issuperset", "isdisjoint", "__contains__"}
+COPYING_CALLS = {"dict", "list", "set", "tuple", "frozenset", "sorted", "len", "deepcopy", "any", "all", "sum", "min", "max",
+                 "enumerate", "zip", "isinstance", "str", "repr", "bool", "iter", "reversed"}
+
+
+def mutable_module_names(tree):
+    out = set()
+    for st in tree.body:
+        tgt = val = None
+        if isinstance(st, ast.Assign) and len(st.targets) == 1:
+            tgt, val = st.targets[0], st.value
+        elif isinstance(st, ast.AnnAssign) and st.value is not None:
+            tgt, val = st.target, st.value
+        if isinstance(tgt, ast.Name) and (isinstance(val, (ast.Dict, ast.List, ast.Set, ast.DictComp, ast.ListComp, ast.SetComp)) or (
+                isinstance(val, ast.Call) and (getattr(val.func, "id", None) or getattr(val.func, "attr", None)) in CONTAINER_CTORS)):
+            out.add(tgt.id)
+    return out
+
+
+def escapes_of_module(tree, tracked):
+    """[(function, name, line)] uses of tracked module-level mutable names that let the object itself escape."""
+    parent = {}
+    for n in ast.walk(tree):
+        for c in ast.iter_child_nodes(n):
+            parent[c] = n
+    out = []
+    for f in ast.walk(tree):
+        if not isinstance(f, (ast.FunctionDef, ast.AsyncFunctionDef)):
+            continue
+        local = {a.arg for a in f.args.args + f.args.kwonlyargs + f.args.posonlyargs}
+        local |= {n.id for n in ast.walk(f) if isinstance(n, ast.Name) and isinstance(n.ctx, ast.Store)}
+        for n in ast.walk(f):
+            if not (isinstance(n, ast.Name) and isinstance(n.ctx, ast.Load) and n.id in tracked and n.id not in local):
+                continue
+            p = parent.get(n)
+            ok = False
+            if isinstance(p, ast.Attribute) and p.value is n and p.attr in SAFE_ATTRS:
+                ok = True
+            elif isinstance(p, ast.Subscript) and p.value is n and isinstance(p.ctx, ast.Load):
+                ok = True
+            elif isinstance(p, ast.Compare) and n in p.comparators and all(isinstance(o, (ast.In, ast.NotIn, ast.Eq, ast.NotEq)) for o in p.ops):
+                ok = True
+            elif isinstance(p, (ast.For, ast.comprehension)) and p.iter is n:
+                ok = True
+            elif isinstance(p, ast.Call) and n in p.args:
+                fn = getattr(p.func, "id", None) or getattr(p.func, "attr", None)
+                # a `.get(k, X)` default (possibly nested in further .get defaults) whose value ends up in a copying constructor
+                q, wrapped = p, False
+                while fn == "get" and isinstance(parent.get(q), ast.Call) and q in parent[q].args:
+                    q = parent[q]
+                    qfn = getattr(q.func, "id", None) or getattr(q.func, "attr", None)
+                    if qfn in COPYING_CALLS:
+                        wrapped = True
+                        break
+                    if qfn != "get":
+                        break
+                ok = fn in COPYING_CALLS or (fn == "get" and wrapped)
+            elif isinstance(p, ast.BinOp) or isinstance(p, ast.Starred) or isinstance(p, ast.FormattedValue):
+                ok = True
+            elif isinstance(p, ast.Dict) and n in p.values and p.keys[p.values.index(n)] is None:
+                ok = True  # {**X, ...}
+            if not ok:
+                out.append((f.name, n.id, n.lineno))
+    return out
+
+
+@custom("c05-module-defaults-do-not-escape", props=["C05", "C08", "C20"])
+def module_defaults_do_not_escape(ctx):
+    repo = ctx["repo"]
+    t0 = time.time()
+    obs = []
+    mods = sorted(set(config_path_modules(repo) + DEFAULTS_MODULES))
+    trees = {}
+    for rel in mods:
+        p = os.path.join(repo, rel)
+        if os.path.exists(p):
+            with open(p, encoding="utf-8") as fh:
+                trees[rel] = ast.parse(fh.read())
+    own = {rel: mutable_module_names(t) for rel, t in trees.items()}
+    for rel, tree in trees.items():
+        tracked = set(own[rel])
+        for n in ast.walk(tree):  # names imported from another scanned module (`from src.config import DEFAULT_CONFIG`)
+            if isinstance(n, ast.ImportFrom) and n.module:
+                src_rel = n.module.replace(".", "/") + ".py"
+                for a in n.names:
+                    if a.name in own.get(src_rel, ()):
+                        tracked.add(a.asname or a.name)
+        esc = escapes_of_module(tree, tracked)
+        ok = not esc
+        note = f"{rel}: " + "; ".join(f"{fn}() lets the module-level mutable object {nm} escape un-copied (line {ln})" for fn, nm, ln in esc[:6])
+        obs.append({"name": f"custom:c05-module-defaults-do-not-escape/{rel}", "kind": "custom", "verdict": "discharged" if ok else "refuted",
+                    "solver": "ast-scan", "ms": round((time.time() - t0) * 1000, 1), "note": "" if ok else note, "carries": True,
+                    "witness_confirmed": not ok, "witness": None if ok else note})
+    return obs
